@@ -289,6 +289,7 @@ pub fn step_strategy(cfg: &Cfg, p: Profile) -> BoxedStrategy<Step> {
         (1, (0..slots, proptest::collection::vec(k_strategy(), 0..4)).prop_map(|(slot, comps)| Step::Spawn { slot, marked: false, comps }).boxed()),
         (2, (0..slots).prop_map(|slot| Step::Despawn { slot }).boxed()),
         (2, (0..slots, any::<bool>()).prop_map(|(slot, on)| Step::Marker { slot, on }).boxed()),
+        (1, (0..slots).prop_map(|slot| Step::Remark { slot }).boxed()),
         (if structural { 8 } else { 4 }, (0..slots, k_strategy()).prop_map(|(slot, k)| Step::Insert { slot, k }).boxed()),
         (if structural { 8 } else { 4 }, (0..slots, k_strategy()).prop_map(|(slot, k)| Step::Remove { slot, k }).boxed()),
         (if split { 16 } else if lossy { 12 } else { 8 }, (0..slots, k_strategy()).prop_map(|(slot, k)| Step::Mutate { slot, k }).boxed()),
@@ -324,7 +325,7 @@ pub fn step_strategy(cfg: &Cfg, p: Profile) -> BoxedStrategy<Step> {
     ));
     v.push((
         w(cfg.prespawn, 4),
-        (0..clients, 0..slots, proptest::bool::weighted(0.2), any::<bool>()).prop_map(|(client, slot, kill, gap)| Step::PreSpawn { client, slot, kill, gap }).boxed(),
+        (0..clients, 0..slots, proptest::bool::weighted(0.2), any::<bool>(), proptest::bool::weighted(0.35)).prop_map(|(client, slot, kill, gap, early)| Step::PreSpawn { client, slot, kill, gap, early }).boxed(),
     ));
     v.push((w(cfg.faults, if sessions { 4 } else { 1 }), (0..clients).prop_map(|client| Step::Disconnect { client }).boxed()));
     v.push((w(cfg.faults, if sessions { 3 } else { 1 }), (0..clients).prop_map(|client| Step::DisconnectLate { client }).boxed()));
@@ -393,6 +394,9 @@ pub fn run_case(id: &'static str, case: &Case, or: Oracles, nontrivial: fn(&Sim)
         if fail.is_none() {
             sim.settle();
             fail = sim.fail.take();
+        }
+        if fail.is_none() && (or.session || or.unauth) {
+            fail = oracle::check_authorized_after_settle(&mut sim).err();
         }
         if fail.is_none() && or.converge {
             fail = oracle::check_converged(&mut sim).err();
